@@ -76,6 +76,8 @@ func (s e3Shape) render() map[string]string {
 			if k == 1 {
 				// cancellation scenario: announce, then spin until cancelled
 				cmd += `; if [ -n "$VERIF_SPIN" ]; then : > spin.started; while [ ! -f never.flag ]; do :; done; fi`
+				// edit-during-run scenario: announce, then wait until the harness has edited a source
+				cmd += `; if [ -n "$VERIF_PAUSE" ]; then : > pause.started; while [ ! -f pause.release ]; do :; done; fi`
 			}
 			if gen && k == n {
 				cmd += ` && mkdir -p out && printf g > out/gen.txt && printf g > out/gen2.txt`
@@ -644,7 +646,7 @@ func (st *e3State) step(op e3Op, rng *rand.Rand, part *h.Partial) []e3Verdict {
 		}
 
 	// ---- plain invocations of the task under test ------------------------------
-	case "run", "run-fail", "run-force", "run-force-fail", "run-yes", "kill", "run-cancel", "run-cancel-force":
+	case "run", "run-fail", "run-force", "run-force-fail", "run-yes", "kill", "run-cancel", "run-cancel-force", "run-edit":
 		inv := e3Inv{args: sh.withVar(sh.TaskName), plain: true}
 		failFlag := ""
 		switch op.Kind {
@@ -674,6 +676,21 @@ func (st *e3State) step(op e3Op, rng *rand.Rand, part *h.Partial) []e3Verdict {
 		case "run-yes":
 			inv.args = append(inv.args, "--yes")
 			inv.yes = true
+		case "run-edit":
+			// a matched source is edited while the commands run (after the up-to-date check): the run counts
+			// for the fingerprint it checked, and the edit must make the next run execute again
+			// (not judged for timestamp + generates: there the documented reference is the newest of the
+			// generates and the last run, so an edit older than the outputs written after it is by design not
+			// seen; the property quantifies over file operations between runs and does not decide this case)
+			if !(sh.Method == "timestamp" && sh.Gen) {
+				inv.env = append(inv.env, "VERIF_PAUSE=1")
+			}
+			if sh.Prompt {
+				inv.args = append(inv.args, "--yes")
+				inv.yes = true
+			}
+			os.Remove(filepath.Join(st.dir, "pause.started"))
+			os.Remove(filepath.Join(st.dir, "pause.release"))
 		case "kill":
 			inv.env = append(inv.env, "TASK_VERIF_KILL_AT="+op.Arg)
 			if sh.Prompt {
@@ -710,7 +727,45 @@ func (st *e3State) step(op e3Op, rng *rand.Rand, part *h.Partial) []e3Verdict {
 		// successful run).
 		beforeOwn := h.Snap(filepath.Join(st.dir, ".task"), true)
 		noJudge := st.prevSet && st.prevOut == "killed-complete" && st.prevF == fNow && genOK && statusOK && !inv.force
-		r, tr := st.invoke(inv)
+		var r h.Result
+		var tr string
+		var during *[3]string // file, old content, new content of an edit made while the commands were running
+		var viewBefore map[string]string
+		if op.Kind == "run-edit" {
+			viewBefore = st.view()
+			done := make(chan struct{})
+			go func() { r, tr = st.invoke(inv); close(done) }()
+			paused := false
+			for !paused {
+				select {
+				case <-done:
+				default:
+					if _, err := os.Stat(filepath.Join(st.dir, "pause.started")); err == nil {
+						paused = true
+					} else {
+						time.Sleep(2 * time.Millisecond)
+					}
+					continue
+				}
+				break
+			}
+			if paused {
+				if m := st.matchedFiles(); len(m) > 0 {
+					f := m[rng.Intn(len(m))]
+					st.serial++
+					during = &[3]string{f, st.files[f], fmt.Sprintf("content %d\n", st.serial)}
+					os.WriteFile(filepath.Join(st.dir, f), []byte(during[2]), 0o644)
+					st.stamp(f)
+				}
+				os.WriteFile(filepath.Join(st.dir, "pause.release"), nil, 0o644)
+				<-done
+				part.Count("edits_during_a_run", 1)
+			}
+			os.Remove(filepath.Join(st.dir, "pause.started"))
+			os.Remove(filepath.Join(st.dir, "pause.release"))
+		} else {
+			r, tr = st.invoke(inv)
+		}
 		if !strings.HasPrefix(op.Kind, "run-cancel") {
 			if st.ownState == nil {
 				st.ownState = map[string]bool{}
@@ -864,10 +919,16 @@ func (st *e3State) step(op e3Op, rng *rand.Rand, part *h.Partial) []e3Verdict {
 			}
 		}
 		st.prevSet, st.prevF, st.prevOut = true, st.fingerprint(), observed
+		if during != nil {
+			st.prevF = fNow // the attempt belongs to the fingerprint Task checked, not to the one the edit produced
+		}
 		if observed == "success" || observed == "skipped" {
 			// the state Task could record as good (net changes are classified against it)
 			st.goodSet, st.goodF = true, st.prevF
 			st.prevView = st.view()
+			if during != nil {
+				st.prevView = viewBefore
+			}
 		}
 		if !st.goodSet && st.prevView == nil {
 			st.prevView = map[string]string{}
@@ -879,6 +940,12 @@ func (st *e3State) step(op e3Op, rng *rand.Rand, part *h.Partial) []e3Verdict {
 			st.lastByF[fNow] = observed
 		}
 		st.since, st.changes = nil, nil
+		if during != nil {
+			st.lastEdit = *during
+			st.files[during[0]] = during[2]
+			rec.Op += " (edited " + during[0] + " during the run)"
+			fileOp("edit")
+		}
 	}
 	return out
 }
@@ -1042,8 +1109,8 @@ func e3RandomHistory(rng *rand.Rand, s e3Shape, prop string, n int) []e3Op {
 		case r < pFile+pRO:
 			ops = append(ops, e3Op{Kind: e3ROOps[rng.Intn(len(e3ROOps))]})
 		case r < pFile+pRO+pBad:
-			switch rng.Intn(6) {
-			case 5:
+			switch rng.Intn(7) {
+			case 6:
 				ops = append(ops, e3Op{Kind: "run-force-fail", K: s.failK(rng)})
 			case 0:
 				ops = append(ops, e3Op{Kind: "run-fail", K: s.failK(rng)})
@@ -1056,6 +1123,8 @@ func e3RandomHistory(rng *rand.Rand, s e3Shape, prop string, n int) []e3Op {
 				ops = append(ops, e3Op{Kind: []string{"run-cancel", "run-cancel-force"}[rng.Intn(2)]})
 			case 4:
 				ops = append(ops, e3Op{Kind: "run-force"})
+			case 5:
+				ops = append(ops, e3Op{Kind: "run-edit"})
 			}
 		default:
 			if s.Prompt && rng.Intn(2) == 0 {
@@ -1188,6 +1257,24 @@ func runE3(id string, start time.Time) int {
 				ops := []e3Op{{Kind: "run"}, {Kind: "run-other"}, {Kind: "run"}, {Kind: "run-other"}, {Kind: "run"}, {Kind: "edit"}, {Kind: "run-other"}, {Kind: "run"}, {Kind: "run"}}
 				jobs = append(jobs, job{s, ops, "interleaved-instances", i})
 				i++
+			}
+		}
+		// a source edited while the commands run (after the up-to-date check) must make the next run execute again
+		for _, method := range []string{"checksum", "timestamp"} {
+			for _, shape := range []string{"plain", "deps", "label", "ns", "collide", "labelvar"} {
+				for n := 1; n <= 2; n++ {
+					for _, gen := range []bool{false, true} {
+						if method == "timestamp" && gen {
+							continue
+						}
+						s := e3Shape{Method: method, Glob: 0, Shape: shape, NCmds: n, Gen: gen}
+						s.fixNames()
+						jobs = append(jobs, job{s, []e3Op{{Kind: "run-edit"}, {Kind: "run"}, {Kind: "run"}}, "edit-during-run", i})
+						i++
+						jobs = append(jobs, job{s, []e3Op{{Kind: "run"}, {Kind: "edit"}, {Kind: "run-edit"}, {Kind: "run"}, {Kind: "run"}}, "edit-during-run", i})
+						i++
+					}
+				}
 			}
 		}
 		for _, method := range []string{"checksum", "timestamp"} {
